@@ -21,6 +21,8 @@ type Term struct {
 	id   int
 	key  string
 	emitted bool // (define-fun) already sent in this session
+	vars     []*Term
+	varsDone bool
 	size int     // DAG-unaware size estimate
 }
 
